@@ -187,7 +187,11 @@ func runC05(c *Ctx) {
 			snap     string
 			recvAt   int64 // lines received when the call returned
 			nextSeen bool  // fg: line n+1 had been received before the sample
+			snap2    string // fg: a second snapshot taken just before the handler returns ("" = not taken)
+			late     bool   // the handler entered after the harness had begun to end the connection: not judged
 		}
+		abrupt := idx%3 == 1 // the connection is ended while handlers are running and lines are queued
+		var causeFired int32
 		var mu sync.Mutex
 		var samples []sample
 		mk := func(bg bool) client.HandlerFunc {
@@ -209,13 +213,46 @@ func runC05(c *Ctx) {
 						runtimeGosched()
 					}
 				}
+				late := atomic.LoadInt32(&causeFired) == 1
 				ch := st.GetChannel("#c") // the one tracker call
 				ra := atomic.LoadInt64(&recvCount)
+				snap2 := ""
+				if !bg {
+					// stay in the handler a little longer (in abrupt sessions: until the teardown has begun) and look again
+					if abrupt {
+						dl := time.Now().Add(time.Millisecond)
+						for atomic.LoadInt32(&causeFired) == 0 && time.Now().Before(dl) {
+							runtimeGosched()
+						}
+						time.Sleep(150 * time.Microsecond)
+					} else {
+						for k := 0; k < 10; k++ {
+							runtimeGosched()
+						}
+					}
+					snap2 = chanCanon(st.GetChannel("#c"))
+				}
 				mu.Lock()
-				samples = append(samples, sample{n, bg, chanCanon(ch), ra, next})
+				samples = append(samples, sample{n, bg, chanCanon(ch), ra, next, snap2, late})
 				mu.Unlock()
 			}
 		}
+		var connSnaps [2]string
+		var connSeen int32
+		s.Conn.HandleFunc(client.CONNECTED, func(_ *client.Conn, l *client.Line) {
+			// the welcome has been applied and no later line has: the channel of line 0 does not exist yet,
+			// neither now nor after the following lines have been received
+			connSnaps[0] = chanCanon(st.GetChannel("#c"))
+			dl := time.Now().Add(2 * time.Millisecond)
+			for atomic.LoadInt64(&recvCount) < 2 && time.Now().Before(dl) {
+				runtimeGosched()
+			}
+			for k := 0; k < 20; k++ {
+				runtimeGosched()
+			}
+			connSnaps[1] = chanCanon(st.GetChannel("#c"))
+			atomic.StoreInt32(&connSeen, 1)
+		})
 		for _, v := range []string{"JOIN", "PART", "KICK", "QUIT", "NICK", "TOPIC", "MODE"} {
 			s.Conn.HandleFunc(v, mk(false))
 			s.Conn.HandleBG(v, mk(true))
@@ -248,7 +285,7 @@ func runC05(c *Ctx) {
 				time.Sleep(time.Duration(50+rr.Intn(300)) * time.Microsecond)
 			}
 		}()
-		var stream []byte
+		stream := []byte(":srv 001 me :Welcome to the session me!ident@host\r\n")
 		for _, l := range lines {
 			stream = append(stream, l+"\r\n"...)
 		}
@@ -257,9 +294,25 @@ func runC05(c *Ctx) {
 			cuts = append(cuts, q)
 		}
 		mc.SendSegmented(stream, cuts)
-		okM := s.FgMarker(mc)
-		close(stop)
-		ctl.Wait()
+		if abrupt {
+			// end the connection once a PRNG share of the lines has been handled
+			target := (10 + r.Intn(80)) * len(lines) / 100
+			waitUntilShort(func() bool { mu.Lock(); defer mu.Unlock(); return len(samples) >= 2*target }, 5*time.Second)
+			atomic.StoreInt32(&causeFired, 1)
+			closed := CloseWatched(s.Conn)
+			close(stop)
+			ctl.Wait()
+			if !closed {
+				c.R.Inconcl(fmt.Sprintf("%s: Close did not return (judged by C07)", Case("sess", idx)))
+				return
+			}
+			rig.WaitNoLib(WaitShort, 400)
+		}
+		okM := abrupt || s.FgMarker(mc)
+		if !abrupt {
+			close(stop)
+			ctl.Wait()
+		}
 		if !okM {
 			ds := rig.ProveDead(WaitShort)
 			if ds.Dead {
@@ -270,13 +323,26 @@ func runC05(c *Ctx) {
 			return
 		}
 		// background samples may still be on their way
-		waitUntil(func() bool { mu.Lock(); defer mu.Unlock(); return len(samples) >= 2*len(lines) })
+		if !abrupt {
+			waitUntil(func() bool { mu.Lock(); defer mu.Unlock(); return len(samples) >= 2*len(lines) })
+		}
 		mu.Lock()
 		got := append([]sample(nil), samples...)
 		mu.Unlock()
 		c.R.Eval(1)
 		c.R.Count("samples", int64(len(got)))
-		if len(got) != 2*len(lines) {
+		if atomic.LoadInt32(&connSeen) == 1 {
+			for k, sn := range connSnaps {
+				if sn != "nil" {
+					c.R.Violate(rig.Violation{Sig: "c05|connected-handler-ahead", Detail: fmt.Sprintf("while the CONNECTED handler ran (sample %d) the tracker already showed the channel of a later line: %s", k, clipS(sn)), Case: Case("sess", idx)})
+					break
+				}
+			}
+			c.R.Class("CONNECTED|fg|procs=" + procs)
+		} else if !abrupt {
+			c.R.Violate(rig.Violation{Sig: "c05|connected-missing", Detail: "the welcome was processed but the CONNECTED handler never ran", Case: Case("sess", idx)})
+		}
+		if !abrupt && len(got) != 2*len(lines) {
 			c.R.Inconcl(fmt.Sprintf("%s: %d samples for %d lines x 2 handlers", Case("sess", idx), len(got), len(lines)))
 			return
 		}
@@ -288,6 +354,19 @@ func runC05(c *Ctx) {
 			viol := func(k, d string) {
 				c.R.Violate(rig.Violation{Sig: "c05|" + k, Detail: fmt.Sprintf("%s handler for line %d %q (procs=%s): %s", kind, sm.n, lines[sm.n], procs, d), Case: Case("sess", idx),
 					Witness: map[string]interface{}{"snapshot": sm.snap, "expected_after_line": states[sm.n]}})
+			}
+			if sm.late {
+				continue // entered after the teardown had begun: lines before it may have been discarded
+			}
+			if !sm.bg && sm.snap == states[sm.n] && sm.snap2 != "" && sm.snap2 != states[sm.n] {
+				at := -1
+				for k, s2 := range states {
+					if s2 == sm.snap2 {
+						at = k
+					}
+				}
+				viol("fg-ahead-before-return", fmt.Sprintf("the tracker moved on to the state after line %d while the handler was still running (abrupt end: %v)", at, abrupt))
+				break
 			}
 			if !sm.bg {
 				if sm.snap != states[sm.n] {
@@ -311,7 +390,7 @@ func runC05(c *Ctx) {
 				if sm.nextSeen {
 					c.R.Count("fg_samples_after_next_line_received", 1)
 				}
-				c.R.Class(fmt.Sprintf("%s|fg|next-received=%v|procs=%s", verbs[sm.n], sm.nextSeen, procs))
+				c.R.Class(fmt.Sprintf("%s|fg|next-received=%v|procs=%s|abrupt=%v", verbs[sm.n], sm.nextSeen, procs, abrupt))
 			} else {
 				hi := int(sm.recvAt) - 1
 				if hi >= len(states) {
